@@ -317,7 +317,7 @@ def main():
         real_gai = socket.getaddrinfo
 
         def gai(host, port, *a, **k):
-            if host in ('origin.test',):
+            if host in ('origin.test', pki.LONG_HOST):
                 return [(socket.AF_INET, socket.SOCK_STREAM, 6, '', ('127.0.0.1', port))]
             return real_gai(host, port, *a, **k)
         socket.getaddrinfo = gai
@@ -343,7 +343,7 @@ def main():
         flags = FlagParser.initialize(args, plugins=plist)
         res['plugin_order'] = [c.__name__ for c in flags.plugins.get(b'HttpProxyBasePlugin', [])]
         logging.disable(logging.CRITICAL)
-        host = pt['host']
+        host = pki.LONG_HOST if pt['host'] == 'long' else pt['host']
         bind = '::1' if host == '[::1]' else '127.0.0.1'
         origin = Origin(bind, pt['cert'])
         origin.start()
